@@ -349,7 +349,16 @@ func (o *Oracle) beforeDeleteRange(inc *Inc, min, max uint64) {
 			w.violate("C11", "C11/compaction-beyond-snapshot", "%s deletes log prefix [%d,%d] but its newest durable snapshot is at %d", inc.tag, lo, hi, snapIdx)
 		}
 		// routine compaction keeps the last TrailingLogs indexes of the log
-		if d.last >= w.cfg.TrailingLogs && hi > d.last-w.cfg.TrailingLogs && o.installing[inc.node.idx] == 0 && o.userRestoring[inc.node.idx] == 0 {
+		// "TrailingLogs back from the head": the head is the server's last index, which lies beyond
+		// the stored log after a user restore has burned indexes (nothing exists there to keep)
+		head := d.last
+		if inc.r != nil {
+			if li := inc.r.LastIndex(); li > head {
+				head = li
+				w.stats.probe("compaction_with_head_beyond_stored_log")
+			}
+		}
+		if head >= w.cfg.TrailingLogs && hi > head-w.cfg.TrailingLogs && o.installing[inc.node.idx] == 0 && o.userRestoring[inc.node.idx] == 0 {
 			w.violate("C11", "C11/trailing-logs-not-kept", "%s compaction [%d,%d] with log [%d,%d] and TrailingLogs=%d removes one of the last %d entries (%d in log)",
 				inc.tag, lo, hi, d.first, d.last, w.cfg.TrailingLogs, w.cfg.TrailingLogs, count)
 		}
